@@ -108,14 +108,22 @@ pub fn run_case(spec: &MbSpec, case: &ScCase, st: &mut Stats) -> Result<(), Viol
     let pool = b.prof.nicks.clone();
     let mut ctx = String::from("PRELUDE");
     let mut probing = false;
+    // a discrepancy nobody owns abandons the case - but inside a (read-only) probe battery the
+    // remaining probes are still asked first, so that an owned symptom of the same divergence
+    // (e.g. LIST / LUSERS after a NAMES mismatch) is not missed
+    let mut foreign_pending = false;
     macro_rules! step {
         ($out:expr) => {{
             let mut out = $out;
             out.ctx = ctx.clone();
             out.is_probe = probing;
             if !handle(spec, &eng, &out, st, &mut trace)? {
-                finish(spec, &trace, st, &b);
-                return Ok(());
+                if probing {
+                    foreign_pending = true;
+                } else {
+                    finish(spec, &trace, st, &b);
+                    return Ok(());
+                }
             }
             out
         }};
@@ -231,6 +239,10 @@ pub fn run_case(spec: &MbSpec, case: &ScCase, st: &mut Stats) -> Result<(), Viol
                 }
             }
             probing = false;
+            if foreign_pending {
+                finish(spec, &trace, st, &b);
+                return Ok(());
+            }
         }
     }
     // final full battery from every registered viewpoint
